@@ -364,8 +364,34 @@ fn run_until(w: &mut Tape, env: &EnvRef) -> RunResult {
     };
     let until = w.chance(1, 2);
     let src = short_src(file.clone(), env, vec![132]);
-    let opts = if until { OpenFileOptions::new().read_until(stop) } else { OpenFileOptions::new().read_to(stop) };
-    let got = match opts.from_reader(src) {
+    let mut opts = if until { OpenFileOptions::new().read_until(stop) } else { OpenFileOptions::new().read_to(stop) };
+    // further options that must not change what a conforming (even-length, preamble-carrying) file yields
+    match w.below(4) {
+        1 => opts = opts.odd_length_strategy(dicom_parser::dataset::read::OddLengthStrategy::NextEven),
+        2 => opts = opts.odd_length_strategy(dicom_parser::dataset::read::OddLengthStrategy::Fail),
+        3 => opts = opts.odd_length_strategy(dicom_parser::dataset::read::OddLengthStrategy::Accept),
+        _ => {}
+    }
+    match w.below(3) {
+        1 => opts = opts.read_preamble(dicom_object::file::ReadPreamble::Always),
+        2 => opts = opts.read_preamble(dicom_object::file::ReadPreamble::Auto),
+        _ => {}
+    }
+    let by_path = w.chance(1, 4);
+    let got = if by_path {
+        env.probe("stop-tag-by-path");
+        let dir = crate::framework::sandbox_dir().join("c06files");
+        std::fs::create_dir_all(&dir).map_err(harness)?;
+        let path = dir.join("in.dcm");
+        std::fs::write(&path, &file).map_err(harness)?;
+        let r = opts.open_file(&path);
+        let _ = std::fs::remove_file(&path);
+        drop(src);
+        r
+    } else {
+        opts.from_reader(src)
+    };
+    let got = match got {
         Ok(o) => o,
         Err(e) => fail!("read-until-to", "c06:until:failed", "{}({}) failed on a conforming file: {} [{} {}]", if until { "read_until" } else { "read_to" }, stop, e, syn.name(), describe(&model)),
     };
